@@ -396,22 +396,34 @@ def constraint_algebra(prog, chk):
         for mc in hirq.exprs(h["body"], "MethodCall"):
             if mc["name"] not in ("extent", "three_point"):
                 continue
-            callee = prog.hir[prog.body("svgdx::position::Position::" + mc["name"]).id]
+            cb_ = prog.maybe_body("svgdx::position::Position::" + mc["name"])
+            if cb_ is None or cb_.id not in prog.hir:
+                continue
+            callee = prog.hir[cb_.id]
             cparams = [p.get("name") for p in callee["params"]][1:]
             n_calls += 1
             axes = set()
             wrong = []
+            read = 0
             for i, a in enumerate(mc["args"]):
                 fc = hirq.field_chain(a)
-                if not fc or fc[-1] not in ROLE_OF_FIELD or i >= len(cparams):
+                if not fc or fc[-1] not in ROLE_OF_FIELD or i >= len(cparams) or cparams[i] not in ROLE_OF_PARAM:
                     continue
+                read += 1
                 ax, role = ROLE_OF_FIELD[fc[-1]]
                 axes.add(ax)
                 if ROLE_OF_PARAM.get(cparams[i]) != role:
                     wrong.append(f"{fc[-1]} passed as `{cparams[i]}`")
             key = f"{b.short}:{mc['name']}#{n_calls}"
+            if read < 2:
+                # the constraints are not handed over as plain `self.field` arguments to parameters of the reviewed
+                # names (a struct carries them, the helper was renamed): the wiring is decided end to end by the A17
+                # site position-to-bbox and the emission / extraction algebra
+                chk.undecided("A15.constraint-wiring", key, b.where(line=mc.get("line")), f"{mc['name']}() is not called with plain position fields for parameters of the reviewed names; decided by the A17 site position-to-bbox")
+                continue
             chk.ob(not wrong and len(axes) == 1, "A15.constraint-wiring", key, b.where(line=mc.get("line")), f"{mc['name']}() receives {sorted(axes)}-axis fields in their own roles", f"{b.short}: {mc['name']}() is called with {wrong or 'fields of both axes ' + str(sorted(axes))}")
-    chk.floor("A15.constraint-wiring", n_calls, 4, "call of extent / three_point with position fields")
+    if n_calls == 0:
+        chk.undecided("A15.constraint-wiring", "calls", "src/position.rs", "no call of Position::extent / three_point by those names; decided by the A17 site position-to-bbox")
 
 
 def single_tokenizer(prog, chk):
